@@ -93,7 +93,7 @@ fn single_ident(e: &Expr) -> Option<String> {
 }
 
 fn new_tr<'a>(reg: &'a Registry, self_ty: Option<String>, prefix: &str) -> FnTr<'a> {
-    FnTr { reg, self_ty, ret: Ty::Unit, counter: 0, fn_prefix: prefix.to_string(), local_fns: HashMap::new(), extra_defs: vec![] }
+    FnTr { reg, self_ty, ret: Ty::Unit, counter: 0, fn_prefix: prefix.to_string(), local_fns: HashMap::new(), extra_defs: vec![], muts: vec![], tparams: HashMap::new() }
 }
 
 fn find_free_fn<'a>(files: &'a [File], name: &str) -> Option<&'a ItemFn> {
@@ -765,7 +765,7 @@ fn newtype_fn(files: &[File], reg: &mut Registry, out: &mut String, ty_name: &st
     };
     writeln!(out, "/-- `{}`: the value wrapped by the newtype it returns -/", what).unwrap();
     let fallible = emit_fn(out, &lean, &params, &ret, &seq);
-    reg.fns.insert(format!("{}::{}", ty_name, fn_name), FnSig { lean, params, ret, fallible });
+    reg.fns.insert(format!("{}::{}", ty_name, fn_name), FnSig { lean, params, ret, fallible, muts: vec![] });
     Ok(())
 }
 
